@@ -487,6 +487,12 @@ impl<SD, E: Exfiltrator> SignalIterator<SD, E> {
 
             match self.signals.borrow_mut().poll_pending(has_signals) {
                 Ok(Some(pending)) => self.iter = pending,
+                // `poll_pending` answers `None` without consulting the callback if the instance
+                // got closed after the check above. Nobody would wake the caller up then, so
+                // that must not be reported as `Pending`.
+                Ok(None) if self.signals.borrow_mut().handle.is_closed() => {
+                    return PollResult::Closed
+                }
                 Ok(None) => return PollResult::Pending,
                 Err(err) => return PollResult::Err(err),
             }
